@@ -326,6 +326,32 @@ func (ln *lane) runRport(rc *RportCase, bound time.Duration) (f *finding, obs ma
 	if t.Bad || t.LclAddr != leIP(127, 0, 0, 1) || t.FwdAddr != leIP(127, 0, 0, 1) || int(t.LclPort) != lport || int(t.FwdPort) != tg.port {
 		return fnd("rportfwd:add-task-fields", fmt.Sprintf("rportfwd add 127.0.0.1;%d;127.0.0.1;%d reached the agent as lcl=%08x:%d fwd=%08x:%d", lport, tg.port, t.LclAddr, t.LclPort, t.FwdAddr, t.FwdPort)), obs
 	}
+	if rc.Mode == "reuse-after-refused" {
+		// the same socket id had an earlier life: its target refused the connection, the agent
+		// removed it. Nothing of that may be left when the id is used again below.
+		dead, err := net.Listen("tcp", "127.0.0.1:0")
+		if err != nil {
+			return fnd("infra:target-listen", err.Error()), obs
+		}
+		deadPort := uint32(dead.Addr().(*net.TCPAddr).Port)
+		dead.Close()
+		if pf, _ := ln.poll(cbOpen(clientID, t.LclAddr, t.LclPort, t.FwdAddr, deadPort)); pf != nil {
+			return pf, obs
+		}
+		if pf, _ := ln.poll(cbRead(clientID, typeClient, []byte("nobody-listens"))); pf != nil {
+			return pf, obs
+		}
+		if pf, _ := ln.poll(cbRportRemove(clientID, typeClient, t.LclAddr, t.LclPort, t.FwdAddr, deadPort)); pf != nil {
+			return pf, obs
+		}
+		if containsID(ln.ag.portFwdIDs(), clientID) {
+			return fnd("rportfwd:remove:entry-left", "the forward whose target refused the connection is still in the table after the remove callback"), obs
+		}
+		ln.poll()
+		ln.inbox = nil
+		ln.e.c.Observe("rportfwd.socket-id-reused-after-a-refused-target", 1)
+		rc = &RportCase{Seed: rc.Seed, A2T: rc.A2T, T2A: rc.T2A, Mode: "half-close"}
+	}
 	// the agent bound the port, then a client connected to it: OPEN carries what the task said
 	if pf, _ := ln.poll(cbRportAdd(true, listenID, t.LclAddr, t.LclPort, t.FwdAddr, t.FwdPort), cbOpen(clientID, t.LclAddr, t.LclPort, t.FwdAddr, t.FwdPort)); pf != nil {
 		return pf, obs
